@@ -55,6 +55,10 @@ const (
 
 	cacheFileMagic   = "P2CC"
 	cacheFileVersion = 1
+
+	// invalidStreamID replaces the stream id of a record in the file when
+	// the record is no longer valid (invalidated or replaced by a newer one).
+	invalidStreamID = ^uint64(0)
 )
 
 func readVarInt(r io.ByteReader) (uint64, int, error) {
@@ -278,6 +282,15 @@ func NewCacheFile(cachePath string) (*cacheFile, error) {
 		}
 		res.fileSize += streamHeaderSize
 
+		if streamSection.StreamID == invalidStreamID {
+			// this record was invalidated, its space is free
+			if res.freeSize == 0 {
+				res.freeStart = res.fileSize - streamHeaderSize
+			}
+			res.freeSize += streamHeaderSize + int64(streamSize)
+			res.fileSize += int64(streamSize)
+			continue
+		}
 		if info, ok := res.streamInfos[streamSection.StreamID]; ok {
 			if res.freeSize == 0 || res.freeStart > info.offset-streamHeaderSize {
 				res.freeStart = info.offset - streamHeaderSize
@@ -593,6 +606,22 @@ func (cachefile *cacheFile) truncateFile() error {
 	return nil
 }
 
+// freeRecord accounts the record described by info as free space and
+// overwrites its stream id in the file, so that the record stays dead when the
+// file is loaded the next time. The caller has to hold the write lock and has
+// to remove or replace the entry in streamInfos.
+func (cachefile *cacheFile) freeRecord(info streamInfo) {
+	cachefile.freeSize += int64(info.size) + streamHeaderSize
+	if cachefile.freeStart > info.offset-streamHeaderSize {
+		cachefile.freeStart = info.offset - streamHeaderSize
+	}
+	tombstone := [streamHeaderSize]byte{}
+	binary.LittleEndian.PutUint64(tombstone[:], invalidStreamID)
+	if _, err := cachefile.file.WriteAt(tombstone[:], info.offset-streamHeaderSize); err != nil {
+		log.Printf("Failed to invalidate a record in converter cache file(%q): %v\n", cachefile.cachePath, err)
+	}
+}
+
 func (cachefile *cacheFile) SetData(stream *index.Stream, convertedPackets []index.Data) error {
 	return cachefile.setData(stream.ID(), stream.FirstPacket(), convertedPackets)
 }
@@ -706,6 +735,11 @@ func (cachefile *cacheFile) setData(streamID uint64, streamTime time.Time, conve
 		return fmt.Errorf("failed to flush writer: %w", err)
 	}
 
+	// A previous record of this stream is dead now.
+	if info, ok := cachefile.streamInfos[streamID]; ok {
+		cachefile.freeRecord(info)
+	}
+
 	// Remember where to look for this stream.
 	cachefile.streamInfos[streamID] = streamInfo{
 		offset: cachefile.fileSize + streamHeaderSize,
@@ -731,10 +765,7 @@ func (cachefile *cacheFile) InvalidateChangedStreams(streams *bitmask.LongBitmas
 		// delete the stream from the in-memory index
 		// it will be re-added when the stream is converted again
 		if info, ok := cachefile.streamInfos[uint64(streamID)]; ok {
-			cachefile.freeSize += int64(info.size) + streamHeaderSize
-			if cachefile.freeStart > info.offset-streamHeaderSize {
-				cachefile.freeStart = info.offset - streamHeaderSize
-			}
+			cachefile.freeRecord(info)
 			delete(cachefile.streamInfos, uint64(streamID))
 			invalidatedStreams.Set(streamID)
 		}
